@@ -175,6 +175,8 @@ def check_history(case):
         except Exception as e:  # noqa
             return WO.tag([fail("raised", {"exception": repr(e)}, {"exc": type(e).__name__})], op, r.history)
     last = tuple(case["ops"][-1]) if case["ops"] else None
+    if case.get("tier") == "light":
+        return WO.tag(r.reference_tracks(), last, r.history)
     return state_checks(r, case.get("node", 0), case.get("tier", "thorough"), last)
 
 
@@ -290,7 +292,31 @@ def harnesses(tier, seed):
             ops_done.append(op)
             node(op)
 
-    hs = [{"name": "domain-histories", "body": body, "bound_text": "all histories to depth %d" % depth}]
+    def nan_body(ctx):
+        # a series whose last sample is missing (NaN): the first operation cuts it off, then every history of depth 2
+        r = WO.Runner(WO.INITS[8])
+        done = [("truncate_by_index", 0, -1)]
+        try:
+            r.apply(done[0])
+            for d in range(2):
+                en = r.enabled(WO.DOMAIN_OPS)
+                op = ctx.choose(en, "op%d" % d)
+                r.apply(op)
+                done.append(op)
+                ctx.call(1)
+                if ctx.fresh:
+                    case = {"kind": "history-c08", "init": 8, "ops": [list(o) for o in done], "tier": "light"}
+                    for f in WO.tag(r.reference_tracks(), op, r.history):
+                        ctx.fail(f["clause"], case, f.get("detail"), f.get("key"))
+                    ctx.case(1)
+                    ctx.outcome(WO.values_only(WO.observables(r.wv)[:4]))
+        except Exception as e:  # noqa
+            case = {"kind": "history-c08", "init": 8, "ops": [list(o) for o in done] + ([list(op)] if "op" in dir() else []), "tier": "light"}
+            if ctx.fresh:
+                ctx.fail("raised", case, {"exception": repr(e)}, {"exc": type(e).__name__})
+
+    hs = [{"name": "domain-histories", "body": body, "bound_text": "all histories to depth %d" % depth},
+          {"name": "missing-last-sample-cut-off-first", "body": nan_body, "bound_text": "truncate, then all histories of depth 2"}]
     if not quick:
         hs.append({"name": "merged-state-bfs", "run": (lambda: bfs_merged(8, 400000)),
                    "bound_text": "explicit-state BFS with merging, depth <= 8 or 400k states"})
